@@ -64,3 +64,158 @@ package web
 //@     assert [C09:entities-stored-during-a-sync-only-after-the-requests-sync-id-was-accepted] dataset.fullSyncStarted ==> acceptedG
 //@   at call CompleteFullSync#1 before
 //@     assert [C09:a-sync-is-completed-only-by-a-request-whose-sync-id-was-accepted] acceptedG
+
+// ---------------------------------------------------------------------------
+// C16: route table. Every route registered by the handlers carries the authorizer middleware (which runs the ACL
+// decision of middlewares.doAclCheck for non-admin clients); the only route registered without it by these functions is
+// the token endpoint POST /security/token (documented as open; it authenticates the caller itself).
+
+//@ assumed (*zap.SugaredLogger).Named
+//@   pure
+//@ assumed (*echo.Echo).GET
+//@   pure
+//@ assumed (*echo.Echo).POST
+//@   pure
+//@ assumed (*echo.Echo).PUT
+//@   pure
+//@ assumed (*echo.Echo).PATCH
+//@   pure
+//@ assumed (*echo.Echo).DELETE
+//@   pure
+
+//@ unit web.RegisterDatasetHandler
+//@   prop C16
+//@   ghost authG intset = emptyset()
+//@   dyncall authorizer pure
+//@   at call authorizer#*
+//@     ghost authG := add(authG, $result)
+//@   at call GET#* before
+//@     assert [C16:route-carries-the-authorizer] path == "/security/token" || (len(m) >= 1 && has(authG, m[0]))
+//@   at call POST#* before
+//@     assert [C16:route-carries-the-authorizer] path == "/security/token" || (len(m) >= 1 && has(authG, m[0]))
+//@   at call PATCH#* before
+//@     assert [C16:route-carries-the-authorizer] path == "/security/token" || (len(m) >= 1 && has(authG, m[0]))
+//@   at call DELETE#* before
+//@     assert [C16:route-carries-the-authorizer] path == "/security/token" || (len(m) >= 1 && has(authG, m[0]))
+
+//@ unit web.RegisterCompactionHandler
+//@   prop C16
+//@   ghost authG intset = emptyset()
+//@   dyncall authorizer pure
+//@   at call authorizer#*
+//@     ghost authG := add(authG, $result)
+//@   at call POST#* before
+//@     assert [C16:route-carries-the-authorizer] path == "/security/token" || (len(m) >= 1 && has(authG, m[0]))
+
+//@ unit web.RegisterContentHandler
+//@   prop C16
+//@   ghost authG intset = emptyset()
+//@   dyncall authorizer pure
+//@   at call authorizer#*
+//@     ghost authG := add(authG, $result)
+//@   at call GET#* before
+//@     assert [C16:route-carries-the-authorizer] path == "/security/token" || (len(m) >= 1 && has(authG, m[0]))
+//@   at call POST#* before
+//@     assert [C16:route-carries-the-authorizer] path == "/security/token" || (len(m) >= 1 && has(authG, m[0]))
+//@   at call PUT#* before
+//@     assert [C16:route-carries-the-authorizer] path == "/security/token" || (len(m) >= 1 && has(authG, m[0]))
+//@   at call DELETE#* before
+//@     assert [C16:route-carries-the-authorizer] path == "/security/token" || (len(m) >= 1 && has(authG, m[0]))
+
+//@ unit web.RegisterJobOperationHandler
+//@   prop C16
+//@   ghost authG intset = emptyset()
+//@   dyncall authorizer pure
+//@   at call authorizer#*
+//@     ghost authG := add(authG, $result)
+//@   at call PUT#* before
+//@     assert [C16:route-carries-the-authorizer] path == "/security/token" || (len(m) >= 1 && has(authG, m[0]))
+//@   at call GET#* before
+//@     assert [C16:route-carries-the-authorizer] path == "/security/token" || (len(m) >= 1 && has(authG, m[0]))
+
+//@ unit web.RegisterJobsHandler
+//@   prop C16
+//@   ghost authG intset = emptyset()
+//@   dyncall authorizer pure
+//@   at call authorizer#*
+//@     ghost authG := add(authG, $result)
+//@   at call GET#* before
+//@     assert [C16:route-carries-the-authorizer] path == "/security/token" || (len(m) >= 1 && has(authG, m[0]))
+//@   at call DELETE#* before
+//@     assert [C16:route-carries-the-authorizer] path == "/security/token" || (len(m) >= 1 && has(authG, m[0]))
+//@   at call POST#* before
+//@     assert [C16:route-carries-the-authorizer] path == "/security/token" || (len(m) >= 1 && has(authG, m[0]))
+
+//@ unit web.RegisterLineageHandler
+//@   prop C16
+//@   ghost authG intset = emptyset()
+//@   dyncall authorizer pure
+//@   at call authorizer#*
+//@     ghost authG := add(authG, $result)
+//@   at call GET#* before
+//@     assert [C16:route-carries-the-authorizer] path == "/security/token" || (len(m) >= 1 && has(authG, m[0]))
+
+//@ unit web.RegisterNamespaceHandler
+//@   prop C16
+//@   ghost authG intset = emptyset()
+//@   dyncall authorizer pure
+//@   at call authorizer#*
+//@     ghost authG := add(authG, $result)
+//@   at call GET#* before
+//@     assert [C16:route-carries-the-authorizer] path == "/security/token" || (len(m) >= 1 && has(authG, m[0]))
+
+//@ unit web.RegisterProviderHandler
+//@   prop C16
+//@   ghost authG intset = emptyset()
+//@   dyncall authorizer pure
+//@   at call authorizer#*
+//@     ghost authG := add(authG, $result)
+//@   at call POST#* before
+//@     assert [C16:route-carries-the-authorizer] path == "/security/token" || (len(m) >= 1 && has(authG, m[0]))
+//@   at call GET#* before
+//@     assert [C16:route-carries-the-authorizer] path == "/security/token" || (len(m) >= 1 && has(authG, m[0]))
+//@   at call DELETE#* before
+//@     assert [C16:route-carries-the-authorizer] path == "/security/token" || (len(m) >= 1 && has(authG, m[0]))
+
+//@ unit web.RegisterQueryHandler
+//@   prop C16
+//@   ghost authG intset = emptyset()
+//@   dyncall authorizer pure
+//@   at call authorizer#*
+//@     ghost authG := add(authG, $result)
+//@   at call GET#* before
+//@     assert [C16:route-carries-the-authorizer] path == "/security/token" || (len(m) >= 1 && has(authG, m[0]))
+//@   at call POST#* before
+//@     assert [C16:route-carries-the-authorizer] path == "/security/token" || (len(m) >= 1 && has(authG, m[0]))
+
+//@ unit web.RegisterSecurityHandler
+//@   prop C16
+//@   ghost authG intset = emptyset()
+//@   dyncall authorizer pure
+//@   at call authorizer#*
+//@     ghost authG := add(authG, $result)
+//@   at call POST#* before
+//@     assert [C16:route-carries-the-authorizer] path == "/security/token" || (len(m) >= 1 && has(authG, m[0]))
+//@   at call GET#* before
+//@     assert [C16:route-carries-the-authorizer] path == "/security/token" || (len(m) >= 1 && has(authG, m[0]))
+//@   at call DELETE#* before
+//@     assert [C16:route-carries-the-authorizer] path == "/security/token" || (len(m) >= 1 && has(authG, m[0]))
+
+//@ unit web.RegisterStatisticsHandler
+//@   prop C16
+//@   ghost authG intset = emptyset()
+//@   dyncall authorizer pure
+//@   at call authorizer#*
+//@     ghost authG := add(authG, $result)
+//@   at call GET#* before
+//@     assert [C16:route-carries-the-authorizer] path == "/security/token" || (len(m) >= 1 && has(authG, m[0]))
+
+//@ unit web.RegisterTxnHandler
+//@   prop C16
+//@   ghost authG intset = emptyset()
+//@   dyncall authorizer pure
+//@   at call authorizer#*
+//@     ghost authG := add(authG, $result)
+//@   at call POST#* before
+//@     assert [C16:route-carries-the-authorizer] path == "/security/token" || (len(m) >= 1 && has(authG, m[0]))
+
